@@ -328,11 +328,10 @@ func (v Value) ToString() (string, bool) {
 }
 
 func getName(defaultName string, meta *Table) string {
-	if v := RawGet(meta, StringValue("__name")); !v.IsNil() {
-		s, ok := v.ToString()
-		if ok {
-			return s
-		}
+	// Only a string __name is used (as in the reference implementation);
+	// converting any other value could recurse through its own metatable.
+	if s, ok := RawGet(meta, StringValue("__name")).TryString(); ok {
+		return s
 	}
 	return defaultName
 }
